@@ -7,6 +7,7 @@ import (
 	"sort"
 	"testing"
 
+	"verifharness/appsys"
 	"verifharness/nfrace"
 	"verifharness/sysrun"
 	"verifharness/vh"
@@ -15,6 +16,11 @@ import (
 func TestCheck(t *testing.T) {
 	env := vh.GetEnv()
 	run := vh.NewRun(env, "AM.Run.C04Run")
+	// app engine: the REAL application wiring (package app) in real time, in its own process; reports through run.
+	// true = the replay file held an app-engine case and has been handled.
+	if appsys.Part(t, env, run, "C04") {
+		return
+	}
 	var scs []sysrun.Scenario
 	race := nfrace.Default(env, true)
 	if rp := nfrace.ReplayParams(env.Replay); env.Replay != "" && rp != nil {
